@@ -120,6 +120,9 @@ def mk_pow(base, exp):
 CMP_FLIP = {'Lt': 'Gt', 'LtE': 'GtE', 'Gt': 'Lt', 'GtE': 'LtE', 'Eq': 'Eq', 'NotEq': 'NotEq'}
 
 
+# first positional parameters of array methods that the code base calls on local objects (receiver type unknown)
+METHOD_SIGS = {'ravel': ['order'], 'flatten': ['order'], 'astype': ['dtype'], 'argsort': ['axis'], 'cumsum': ['axis'],
+               'mean': ['axis'], 'sum': ['axis'], 'max': ['axis'], 'min': ['axis'], 'std': ['axis'], 'any': ['axis'], 'all': ['axis']}
 REPO_SIGS = {}       # callable name (last component) -> list of parameter names (without self); filled by core.Repo
 _EXT_SIG_CACHE = {}
 EXT_ROOTS = {'np': 'numpy', 'numpy': 'numpy', 'scipy': 'scipy', 'pd': 'pandas', 'plt': 'matplotlib.pyplot',
@@ -325,6 +328,14 @@ class Normalizer(object):
         parts = []
         left = self.n(e.left)
         for op, c in zip(e.ops, e.comparators):
+            if isinstance(op, (ast.In, ast.NotIn)) and isinstance(c, (ast.Tuple, ast.List, ast.Set)) and 1 <= len(c.elts) <= 8 \
+                    and all(isinstance(x, ast.Constant) and isinstance(x.value, (str, int)) and not isinstance(x.value, bool) for x in c.elts):
+                # x in ('a', 'b')  is  x == 'a' or x == 'b'  (constants: identity adds nothing to equality)
+                eqs = sorted({_key(mk_cmp('Eq', left, self.n(x))): mk_cmp('Eq', left, self.n(x)) for x in c.elts}.values(), key=_key)
+                t_ = eqs[0] if len(eqs) == 1 else ('or',) + tuple(eqs)
+                parts.append(t_ if isinstance(op, ast.In) else negate_deep(t_))
+                left = self.n(c)
+                continue
             r = self.n(c)
             parts.append(mk_cmp(type(op).__name__, left, r))
             left = r
@@ -376,6 +387,9 @@ class Normalizer(object):
                 params = REPO_SIGS[last]
             elif d.split('.')[0] in EXT_ROOTS and d.split('.')[0] not in self.env:
                 params = _ext_params(d)
+        if params is None and isinstance(e.func, ast.Attribute) and e.args and not any(isinstance(a, ast.Starred) for a in e.args) \
+                and e.func.attr in METHOD_SIGS and not (d and d.split('.')[0] in MODULE_ROOTS):
+            params = METHOD_SIGS[e.func.attr]
         pos_args = list(e.args)
         extra_kw = []
         if params is not None and len(pos_args) <= len(params) and not (set(params[:len(pos_args)]) & {k.arg for k in e.keywords}):
@@ -744,6 +758,7 @@ class Metas(dict):
         dict.__init__(self, names if isinstance(names, dict) else {n: n for n in names})
         self.pdefs = pdefs or {}
         self.cdefs = cdefs or {}
+        self.mdefs = {}          # metavariable with several documented definitions -> [(item index, rhs pattern)]
         self.ldefs = {}          # set per candidate statement: local -> nf of its unique reaching definition there
 
 
@@ -754,6 +769,15 @@ def _unify(pat, term, binding, metas, depth=0):
             bm = binding[m]
             if bm == term or (isinstance(bm, tuple) and bm and bm[0] == 'expanded' and bm[1] == term):
                 yield binding
+                return
+            # a role with several documented definitions (x = f(..); x = g(x)): the code may have fused them, so
+            # where the pattern mentions x the code has one of its definitions written out
+            if depth < 6 and not (isinstance(term, tuple) and term and term[0] in ('var', 'param', 'bound')):
+                for idx_, pd_ in (getattr(metas, 'mdefs', {}).get(m, ()) if getattr(metas, 'mdefs_on', False) else ()):
+                    for b in _unify(pd_, term, binding, metas, depth + 1):
+                        b = dict(b)
+                        b['__px__'] = b.get('__px__', frozenset()) | {(m, idx_)}
+                        yield b
             return
         if isinstance(term, tuple) and term and term[0] in ('var', 'attr', 'param', 'bound'):
             for k, v in binding.items():
